@@ -14,6 +14,7 @@ from black_it.samplers.base import BaseSampler
 from harness.calib import FreeLoss, SaveRecorder, ScriptedSampler, model_uf, world
 from harness.common import Case, f
 from symx.core import lift
+from symx.core import reraise_if_harness  # noqa: E402
 
 LEVEL = "model_checking"
 FUNCTIONS = ["black_it.calibrator:Calibrator.calibrate", "black_it.calibrator:Calibrator.check_convergence",
@@ -171,6 +172,7 @@ def replay_concrete(p, n1, B, folder, n2, Ls, verbose):
                         bad = True
                         msgs.append(f"checkpoint holds batch index {st[14]} / {len(st[18])} rows, live object {c.current_batch_index} / {len(c.losses_samp)}")
                 except Exception as e:  # noqa: BLE001
+                    reraise_if_harness(e)
                     bad = True
                     msgs.append(f"checkpoint unreadable: {type(e).__name__}: {e}")
         return bad, f"p={p} B={B} verbose={verbose} losses={Ls}: " + "; ".join(msgs)
